@@ -12,6 +12,8 @@ import (
 	"fmt"
 	"os"
 	"path/filepath"
+	"runtime/debug"
+	"runtime/pprof"
 	"sort"
 	"strings"
 	"time"
@@ -62,7 +64,7 @@ func main() {
 	harness := flag.String("harness", "", "harness function name (without the vfH_ prefix)")
 	out := flag.String("out", "", "result json")
 	workers := flag.Int("workers", 16, "parallel workers")
-	solver := flag.String("solver", "z3", "z3 | z3-new | cvc5 | cvc5-int")
+	solver := flag.String("solver", "z3-new", "z3 | z3-new | cvc5 | cvc5-int")
 	alt := flag.String("alt", "", "second solver for final obligations")
 	timeout := flag.Int("timeout", 60000, "per-query timeout (ms)")
 	maxSteps := flag.Int("maxsteps", 3000000, "instruction limit per path")
@@ -74,9 +76,19 @@ func main() {
 	list := flag.Bool("list", false, "list harness functions and exit")
 	nomerge := flag.Bool("nomerge", false, "disable if-conversion of pure diamonds")
 	fixed := flag.String("model", "", "json file name->value: run concretely with these inputs")
+	cpuprof := flag.String("cpuprofile", "", "write a CPU profile here")
 	budget := flag.Int("budget", 0, "wall-clock budget in seconds (0 = none); exceeding it makes the run incomplete")
 	flag.Parse()
 
+	if *cpuprof != "" {
+		f, err := os.Create(*cpuprof)
+		if err != nil {
+			fatal(err)
+		}
+		pprof.StartCPUProfile(f)
+		defer pprof.StopCPUProfile()
+	}
+	debug.SetGCPercent(600)
 	t0 := time.Now()
 	cfg := &packages.Config{
 		Mode: packages.NeedName | packages.NeedFiles | packages.NeedCompiledGoFiles | packages.NeedImports |
